@@ -43,15 +43,27 @@ func payload(r *rng.R) string {
 	return sb.String()[:n]
 }
 
+// genPanicText draws a panic VALUE (as the text fmt.Sprint gives, see panicValue): mostly strings,
+// and the kinds of values real code panics with — the sentinel http.ErrAbortHandler, an ordinary
+// error, an error value of the library's own type (restful.ServiceError, e.g. one obtained from the
+// library and re-raised), an int.
+func genPanicText(r *rng.R) string {
+	switch r.Intn(8) {
+	case 0:
+		return AbortText
+	case 1:
+		return "error: boom" + strconv.Itoa(r.Intn(100))
+	case 2:
+		return SvcErrText(codes[r.Intn(len(codes))], "boom"+strconv.Itoa(r.Intn(100)))
+	case 3:
+		return strconv.Itoa(r.Intn(1000))
+	}
+	return "boom" + strconv.Itoa(r.Intn(100))
+}
+
 func genAct(r *rng.R, allowAttr bool, panicPct int, hdrN *int) Act {
 	if r.Intn(100) < panicPct {
-		switch r.Intn(6) {
-		case 0:
-			return Act{K: "panic", B: AbortText} // the sentinel http.ErrAbortHandler, as a value
-		case 1:
-			return Act{K: "panic", B: "error: boom" + strconv.Itoa(r.Intn(100))} // an error value
-		}
-		return Act{K: "panic", B: "boom" + strconv.Itoa(r.Intn(100))}
+		return Act{K: "panic", B: genPanicText(r)}
 	}
 	switch k := r.Intn(10); {
 	case k < 5:
@@ -71,6 +83,10 @@ func genAct(r *rng.R, allowAttr bool, panicPct int, hdrN *int) Act {
 				return Act{K: "sa", B: []string{"a", "b"}[r.Intn(2)], V: ""} // SetAttribute(k, nil): withdraw it
 			case 1:
 				return Act{K: "we", N: codes[r.Intn(len(codes))], B: "E" + strconv.Itoa(r.Intn(9))} // WriteErrorString: the Response carries an error from here on
+			case 2:
+				// a write into req.PathParameters(): a common way to hand a derived value on
+				// (values from a large space: a value seen elsewhere tells which act wrote it)
+				return Act{K: "pp", B: ppPrefix + strconv.Itoa(r.Intn(2)), V: "p" + strconv.Itoa(r.Intn(1000000000))}
 			}
 			return Act{K: "sa", B: []string{"a", "b"}[r.Intn(2)], V: "x" + strconv.Itoa(r.Intn(9))}
 		}
@@ -119,15 +135,26 @@ func genFilters(r *rng.R, max int, id, hdrN *int, panicPct int) []Filter {
 type GenOpts struct {
 	Overlap  bool // bias towards what overlapping requests can disturb: 3 or 5 passing container filters, a filter on every service
 	Router   string
-	PanicPct int // per-act probability (percent) of a panic in filters; handlers get twice that
+	PanicPct int // per-act probability (percent) of a panic in filters; handlers get twice that; also the share of routed requests whose panic is raised inside route selection (SReq.CondPanic)
 	Media    bool
+	// Twins: content types and If-conditions on the routes, and in half of the tables a twin of one
+	// route — same method, same path, told apart only by Produces, Consumes or a condition —; histories
+	// then repeat the method and path of an earlier request with other headers (GenReqAfter)
+	Twins bool
+	// RouterErr: a third of the containers get a RouteSelector of the harness around the built-in
+	// router that refuses RouterErrPath with a plain error value, and a tenth of their requests go there
+	// (C06: "for requests that fail routing, the container filters still run once")
+	RouterErr bool
 }
 
 // GenCfg draws a serve configuration over a small route table.
 func GenCfg(r *rng.R, o GenOpts) *Cfg {
 	ro := routing.Opts{Router: o.Router, AllowRe: true, AllowSuf: o.Router == "curly", AllowWild: true, AllowVerb: o.Router == "curly",
-		RootVars: true, RootRe: false, Conds: false, Media: o.Media, MaxSvcs: 2, MaxRoutes: 3}
+		RootVars: true, RootRe: false, Conds: o.Twins, Media: o.Media || o.Twins, MaxSvcs: 2, MaxRoutes: 3}
 	cfg := &Cfg{Routing: routing.GenConfig(r, ro), SvcF: map[int][]Filter{}, RouteX: map[int]*RouteX{}}
+	if o.Twins && r.Chance(1, 2) {
+		addTwin(r, &cfg.Routing)
+	}
 	id, hdrN := 0, 0
 	cfg.Enc = r.Chance(1, 2)
 	cfg.Recover = r.Chance(1, 2)
@@ -179,12 +206,83 @@ func GenCfg(r *rng.R, o GenOpts) *Cfg {
 	cfg.Late = r.Chance(1, 4)
 	cfg.Provider = []string{"pool", "pool+keep", "bounded0", "bounded1", "bounded2", "bounded1+keep"}[r.Intn(6)]
 	cfg.CustomErr = r.Chance(4, 5)
+	if r.Chance(1, 2) {
+		cfg.Order = 1 + r.Intn(3) // service filters registered after routes / after Container.Add / interleaved
+	}
+	if o.RouterErr && r.Chance(1, 3) {
+		cfg.RouterErr = true
+	}
 	return cfg
+}
+
+// addTwin appends to one service a second route with the method and path of one it has, told apart
+// from it by what it produces, what it consumes, or an If-condition.
+func addTwin(r *rng.R, rc *routing.Config) {
+	maxID := 0
+	for _, s := range rc.Services {
+		for _, rt := range s.Routes {
+			if rt.ID >= maxID {
+				maxID = rt.ID + 1
+			}
+		}
+	}
+	si := r.Intn(len(rc.Services))
+	s := &rc.Services[si]
+	if len(s.Routes) == 0 {
+		return
+	}
+	ri := r.Intn(len(s.Routes))
+	orig := &s.Routes[ri]
+	twin := *orig
+	twin.ID = maxID
+	a, b := "application/json", "application/xml"
+	if r.Chance(1, 2) {
+		a, b = b, a
+	}
+	switch r.Intn(3) {
+	case 0:
+		orig.Produces, twin.Produces = []string{a}, []string{b}
+	case 1:
+		orig.Consumes, twin.Consumes = []string{a}, []string{b}
+	default:
+		orig.Conds, twin.Conds = []int{0}, nil // the conditional route is registered first, the unconditional twin takes the rest
+	}
+	s.Routes = append(s.Routes, twin)
+}
+
+// GenReqAfter draws the next request of a history. With o.Twins a third of the requests repeat the
+// method and path of an earlier request of the history with other Accept / Content-Type / condition
+// bits: which route answers depends on those headers, never on which request came first.
+func GenReqAfter(r *rng.R, o GenOpts, cfg *Cfg, prev []SReq) SReq {
+	sr := GenReq(r, o, cfg)
+	if cfg.RouterErr && r.Chance(1, 10) {
+		sr.RouterErr, sr.CondPanic = true, ""
+		sr.Req.Path = RouterErrPath
+		sr.Entry = "dispatch"
+		if r.Chance(1, 2) && MuxReaches(cfg, RouterErrPath) {
+			sr.Entry = "serveDispatch"
+		}
+		return sr
+	}
+	if o.Twins && len(prev) > 0 && r.Chance(1, 3) {
+		p := prev[r.Intn(len(prev))]
+		sr.Req.Method, sr.Req.Path, sr.Entry = p.Req.Method, p.Req.Path, p.Entry
+		sr.CondPanic = ""
+		switch r.Intn(3) {
+		case 0:
+			sr.Req.Accept = []string{"application/json", "application/xml", "", "*/*"}[r.Intn(4)]
+		case 1:
+			sr.Req.CT = []string{"application/json", "application/xml", ""}[r.Intn(3)]
+		default:
+			sr.Req.Conds = []bool{!(len(p.Req.Conds) > 0 && p.Req.Conds[0]), r.Chance(1, 2), r.Chance(1, 2)}
+		}
+	}
+	return sr
 }
 
 // GenReq draws one request of a history.
 func GenReq(r *rng.R, o GenOpts, cfg *Cfg) SReq {
-	ro := routing.Opts{Router: o.Router, Media: o.Media}
+	ro := routing.Opts{Router: o.Router, Media: o.Media || o.Twins, Conds: o.Twins}
 	sr := SReq{Req: routing.GenReq(r, ro, cfg.Routing)}
 	sr.AE = aeVals[r.Intn(len(aeVals))]
 	if r.Chance(1, 2) {
@@ -203,6 +301,10 @@ func GenReq(r *rng.R, o GenOpts, cfg *Cfg) SReq {
 	}
 	if sr.Entry == "serveDispatch" && !MuxReaches(cfg, sr.Req.Path) {
 		sr.Entry = "dispatch"
+	}
+	if (sr.Entry == "dispatch" || sr.Entry == "serveDispatch") && r.Intn(100) < o.PanicPct {
+		// fault traffic whose panic is raised inside route selection (an If-condition panics)
+		sr.CondPanic = genPanicText(r)
 	}
 	return sr
 }
